@@ -169,4 +169,28 @@ func avcSPSModelCases(c *Ctx, r *rand.Rand, nalu []byte) {
 	if len(nalu) > 6 && r.Intn(3) == 0 {
 		emit(nalu[:4+r.Intn(len(nalu)-4)])
 	}
+	// hostile variants (C16): bit flips, a long zero run (huge Exp-Golomb value), random tail, random body
+	if len(nalu) > 6 && r.Intn(2) == 0 {
+		b := cp(nalu)
+		switch r.Intn(4) {
+		case 0:
+			for k := 0; k < 1+r.Intn(3); k++ {
+				b[1+r.Intn(len(b)-1)] ^= byte(1 << uint(r.Intn(8)))
+			}
+		case 1:
+			at := 4 + r.Intn(len(b)-4)
+			z := make([]byte, 1+r.Intn(9))
+			b = append(append(append([]byte{}, b[:at]...), z...), b[at:]...)
+		case 2:
+			t := make([]byte, 1+r.Intn(12))
+			r.Read(t)
+			b = append(b[:4+r.Intn(len(b)-4)], t...)
+		default:
+			b = make([]byte, 4+r.Intn(40))
+			r.Read(b)
+			b[0] = 0x67
+			b[1] = []byte{66, 77, 100, 110, 122, 244, 44}[r.Intn(7)]
+		}
+		emit(b)
+	}
 }
